@@ -38,6 +38,7 @@ fn run_world(wd: World, rng: Option<Rng>, trace: Option<Vec<Action>>, seed: u64)
 				"payments" => "C03",
 				"receive" => "C04",
 				"justice" => "C06",
+				"tamper" => "C05",
 				"onchain" => "C07",
 				"deadlines" => "C08",
 				"asyncpersist" => "C09",
